@@ -1803,10 +1803,17 @@ size_t rtosc_scan_arg_val(const char* src,
                 src+=rd;
                 float secfracsf;
 
+                // only accept hours and minutes if both are present; the
+                // next word may be a number belonging to the next argument
+                int hour, min;
                 rd = 0;
-                sscanf(src, " %2d:%2d%n", &m_tm.tm_hour, &m_tm.tm_min, &rd);
+                sscanf(src, " %2d:%2d%n", &hour, &min, &rd);
                 if(rd)
-                 src+=rd;
+                {
+                    m_tm.tm_hour = hour;
+                    m_tm.tm_min = min;
+                    src+=rd;
+                }
 
                 rd = 0;
                 sscanf(src, ":%2d%n", &m_tm.tm_sec, &rd);
